@@ -48,8 +48,13 @@ class Fork:
             if self.head.value is None:
                 while self.head.value is None:
                     if self.head.exc is not None:
-                        # `instream` raised before producing any element.
-                        raise self.head.exc
+                        # `instream` has failed, hence no more elements will come.
+                        # Re-check `head.value`: a peer may have obtained the first element(s)
+                        # before the failure, after this fork's test in the `while` condition.
+                        if self.head.value is None:
+                            # `instream` raised before producing any element.
+                            raise self.head.exc
+                        continue
                     # Do not wait on the lock unconditionally: a peer fork may be holding it
                     # while blocked on the full buffer, which only drains once this fork
                     # consumes the first element; so keep re-checking `head.value`.
